@@ -162,9 +162,10 @@ def _var_noise(var, scale):
     2*sqrt(var)*d + d*d with d = 64 * scale * 2**-52.  Negligible (1e-15) for ordinary counts; it
     matters for counts of 1e7 and more, where a tolerance of 1e-5 on the variance asks the marginals
     to agree to eleven digits (false alarm met in the thorough tier, DESIGN 7.4)."""
-    var = np.nan_to_num(np.abs(np.asarray(var, dtype=float)))
-    d = 64.0 * np.nan_to_num(np.abs(np.asarray(scale, dtype=float))) * 2.0 ** -52
-    return 2.0 * np.sqrt(var) * d + d * d
+    with np.errstate(all="ignore"):
+        var = np.nan_to_num(np.abs(np.asarray(var, dtype=float)))
+        d = 64.0 * np.nan_to_num(np.abs(np.asarray(scale, dtype=float))) * 2.0 ** -52
+        return np.nan_to_num(2.0 * np.sqrt(var) * d + d * d)
 
 
 def _var_close(a, b, scale, rtol=1e-6):
@@ -238,6 +239,21 @@ def _op_balance(self, op):
                                      serializer="pickle" if m.startswith("stdlib") else "dill")
                 sim.sched.param = "p%dw0" % pool.no
                 mapf = {"map": pool.map, "imap": pool.imap, "imap_unordered": pool.imap_unordered}[m.split(".")[1]]
+            if cfg.get("fail_open") is not None:
+                # F4 inside a balancing run: the j-th open of the file (by the driver or by a worker)
+                # fails once - the run may fail, it must never return other weights
+                from .store_engine import InjectedIOError
+                cnt = [0]
+                tgt = int(cfg["fail_open"])
+
+                def hook(norm, mode):
+                    k = cnt[0]
+                    cnt[0] += 1
+                    if k == tgt:
+                        self.fired("F4")
+                        raise InjectedIOError(5, "injected: cannot open %s (%s)" % (norm, mode))
+
+                sim.hooks["open"] = hook
             with warnings.catch_warnings(), np.errstate(all="ignore"):
                 warnings.simplefilter("ignore")
                 if m == "cli":
@@ -246,6 +262,7 @@ def _op_balance(self, op):
                                              use_lock=cfg.get("use_lock", False), **_kw(opts))
             return bias, stats, list(tap.vars), list(sim.sched.nested_record or [])
         finally:
+            sim.hooks.pop("open", None)
             log.removeHandler(tap)
             if pool is not None:
                 try:
@@ -364,8 +381,13 @@ def _op_balance(self, op):
                 sim.deadlock = None
                 continue
             except Exception as e:
+                if cfg.get("fail_open") is not None:
+                    self.stat("balance-faulted-run-failed")     # a legitimate outcome under a fault
+                    continue
                 errs.append(("O-config-raised", label + "raised %s: %s" % (type(e).__name__, str(e)[:160])))
                 continue
+            if cfg.get("fail_open") is not None:
+                self.stat("balance-faulted-run-completed")
             self.stat("balance-configs")
             self.stat("balance-map:" + cfg["map"])
             if len(vars_) != len(ref_vars):
